@@ -24,7 +24,7 @@ structure Loaded (st : St) : Prop where
   detached : st.attached = false
   current  : HasModule st st.current
   prelude  : ∀ name v, (name, v) ∈ Prelude.table → ∃ w, st.getGlobal name cs!"prelude" = .found w ∧ w.get = v
-  natives  : ∀ id, id ∈ [NativeId.cons, .car, .cdr, .add, .substract, .multiply, .less, .greater, .equal, .list] →
+  natives  : ∀ id, id ∈ [NativeId.cons, .car, .cdr, .add, .substract, .multiply, .less, .greater, .equal, .list, .signal] →
                ∃ w, st.getGlobal id.name cs!"prelude" = .found w ∧ w.get = .native id
   nil      : ∃ w, st.getGlobal cs!"nil" cs!"prelude" = .found w ∧ w.isNil = true
   t        : ∃ w, st.getGlobal cs!"t" cs!"prelude" = .found w ∧ w.isNil = false
@@ -77,7 +77,7 @@ macro "lk0" : tactic =>
       and_true, and_false, false_and, true_and, not_false_eq_true, reduceCtorEq, Option.some.injEq]; try rfl))
 
 theorem Loaded.native {st : St} (hl : Loaded st) (id : NativeId)
-    (h : id ∈ [NativeId.cons, .car, .cdr, .add, .substract, .multiply, .less, .greater, .equal, .list]) :
+    (h : id ∈ [NativeId.cons, .car, .cdr, .add, .substract, .multiply, .less, .greater, .equal, .list, .signal]) :
     ∃ w, globalsOf st id.name cs!"prelude" = .found w ∧ w.get = .native id := hl.natives id h
 
 /-- a reference derivation over the globals of a loaded state is realised by the evaluator (`C05.eval_realises_reference`) -/
@@ -513,7 +513,7 @@ theorem exSt_loaded : Loaded exSt where
     obtain ⟨w, hw, hp⟩ := found_of_check (List.all_eq_true.mp hall (name, v) hmem)
     exact ⟨w, hw, eq_of_beq hp⟩
   natives := by
-    have hall : [NativeId.cons, .car, .cdr, .add, .substract, .multiply, .less, .greater, .equal, .list].all
+    have hall : [NativeId.cons, .car, .cdr, .add, .substract, .multiply, .less, .greater, .equal, .list, .signal].all
         (fun id => match exSt.getGlobal id.name cs!"prelude" with
           | .found w => w.get == .native id | _ => false) = true := by decide +kernel
     intro id hmem
